@@ -559,6 +559,9 @@ func (e *Engine) evalCall(x *Expr, se *SpecEnv) Val {
 	case "fresh":
 		// allocated by this call: reference / base at or above the entry allocation counter
 		a := arg(0)
+		if _, isPtr := a.T.Underlying().(*types.Pointer); isPtr {
+			return mkBool(Ge(e.allocID(a.L[0]), e.next0))
+		}
 		return mkBool(Ge(a.L[0], e.next0))
 	case "allocated":
 		a := arg(0)
